@@ -206,6 +206,7 @@ static struct {
         unsigned tids_seen[64]; int n_tids;
         uint64_t run_id;
         int *mark; int stamp;
+        int dash_residue;
 } R;
 
 static uint64_t run_counter = 0;
@@ -290,6 +291,14 @@ void kv_run(int kind, struct msa *msa)
                 R.active = 1;
                 R.run_id = ++run_counter;
                 R.last_ended = -1;
+                /* through the array API every byte is a residue, '-' included; the rendering invariant below cannot tell such a residue
+                   from a gap, so it is skipped for inputs that contain one (file readers never store '-' as a residue) */
+                if (msa && msa->sequences) {
+                        for (int i = 0; i < msa->numseq && !R.dash_residue; i++) {
+                                struct msa_seq *q = msa->sequences[i];
+                                if (q && q->seq && q->len > 0 && memchr(q->seq, '-', (size_t)q->len)) R.dash_residue = 1;
+                        }
+                }
                 memset(kmtab, 0, sizeof(kmtab));
                 memset(dptab, 0, sizeof(dptab));
                 km_open = 0;
@@ -318,7 +327,7 @@ void kv_run(int kind, struct msa *msa)
                 violation("C02", "no-merge-observed", "kalign_run returned OK without any merge event");
         }
         /* rendering invariant: the gapped rows handed to the caller are exactly what the gap vectors say */
-        if (msa->aligned == ALN_STATUS_FINAL && msa->alnlen > 0) {
+        if (msa->aligned == ALN_STATUS_FINAL && msa->alnlen > 0 && !R.dash_residue) {
                 for (int i = 0; i < msa->numseq; i++) {
                         struct msa_seq *q = msa->sequences[i];
                         long pos = 0, nres = 0;
